@@ -223,6 +223,30 @@ struct dispatch_table
         >::type type;
     };
 
+    // calls a transition triggered by a base class of the event: the event reference is converted
+    // (derived-to-base) by the call instead of being reinterpreted
+    template <class Transition>
+    struct call_with_base_event
+    {
+        static boost::msm::back::HandledEnum execute(Fsm& fsm, int region_index, int state, Event& evt)
+        {
+            return Transition::execute(fsm,region_index,state,evt);
+        }
+    };
+    // the trigger is the event type itself (up to const): same object address, the transition can be stored directly
+    template <class Transition>
+    static cell make_cell( ::boost::mpl::true_ const &)
+    {
+        // reinterpret_cast to uintptr_t to suppress gcc-11 warning
+        return reinterpret_cast<cell>(
+            reinterpret_cast<std::uintptr_t>(&Transition::execute));
+    }
+    template <class Transition>
+    static cell make_cell( ::boost::mpl::false_ const &)
+    {
+        return &call_with_base_event<Transition>::execute;
+    }
+
     // A function object for use with mpl::for_each that stuffs
     // transitions into cells.
     struct init_cell
@@ -241,9 +265,9 @@ struct dispatch_table
             typedef typename create_stt<Fsm>::type stt; 
             BOOST_STATIC_CONSTANT(int, state_id = 
                 (get_state_id<stt,typename Transition::current_state_type>::value));
-            // reinterpret_cast to uintptr_t to suppress gcc-11 warning
-            self->entries[state_id+1] = reinterpret_cast<cell>(
-                reinterpret_cast<std::uintptr_t>(&Transition::execute));
+            self->entries[state_id+1] = make_cell<Transition>(
+                typename ::boost::is_same<typename Transition::transition_event,
+                                          typename ::boost::remove_const<Event>::type>::type());
         }
         template <class Transition>
         typename ::boost::enable_if<
@@ -251,7 +275,9 @@ struct dispatch_table
         ,void>::type
         init_event_base_case(Transition const&, ::boost::mpl::true_ const &, ::boost::mpl::false_ const &) const
         {
-            self->entries[0] = reinterpret_cast<cell>(&Transition::execute);
+            self->entries[0] = make_cell<Transition>(
+                typename ::boost::is_same<typename Transition::transition_event,
+                                          typename ::boost::remove_const<Event>::type>::type());
         }
 
         // version for transition event is boost::any
